@@ -433,6 +433,58 @@ var ops = []op{
 		}
 		return "ok " + sb.String() + fmt.Sprintf(" %d%d%d%d", len(p.EncryptionAlgorithm), len(p.IntegrityAlgorithm), len(p.PseudorandomFunction), len(p.DiffieHellmanGroup))
 	}},
+	{"error-paths", func(w *world) string {
+		// what a receiver does with input it has to refuse: the error paths run concurrently too
+		var sb strings.Builder
+		// EAP-AKA' packets with attribute types the library has no name for, wrong lengths, truncated
+		for k := 0; k < 3; k++ {
+			pkt := []byte{byte(1 + w.r.Intn(2)), byte(w.r.Intn(256)), 0, 0, 50, byte(1 + w.r.Intn(5)), 0, 0}
+			for n := w.r.Intn(4); n >= 0; n-- {
+				t := byte([]int{5, 6, 7, 8, 9, 10, 13, 15, 16, 17, 21, 25, 129, 130, 135, 200, 255}[w.r.Intn(17)])
+				words := byte(w.r.Intn(4))
+				pkt = append(pkt, t, words)
+				pkt = append(pkt, rbytes(w.r, w.r.Intn(14))...)
+			}
+			pkt[2], pkt[3] = byte(len(pkt)>>8), byte(len(pkt))
+			e := new(eap.EAP)
+			if err := e.Unmarshal(pkt); err != nil {
+				sb.WriteString("e")
+			} else {
+				sb.WriteString("o")
+				if a, ok := e.EapTypeData.(*eap.EapAkaPrime); ok {
+					if _, err := a.GetAttr(eap.EapAkaPrimeAttrType(w.r.Intn(256))); err != nil {
+						sb.WriteString("g")
+					}
+					if err := a.SetAttr(eap.EapAkaPrimeAttrType(w.r.Intn(256)), rbytes(w.r, w.r.Intn(20))); err != nil {
+						sb.WriteString("s")
+					}
+				}
+			}
+		}
+		// datagrams: random octets behind a plausible header, unknown critical payloads, truncated chains
+		for k := 0; k < 3; k++ {
+			b := rbytes(w.r, 28+w.r.Intn(40))
+			b[17] = 0x20
+			b[16] = byte([]int{33, 34, 40, 41, 46, 47, 48, 200}[w.r.Intn(8)])
+			b[24], b[25], b[26], b[27] = 0, 0, 0, byte(len(b))
+			m := new(message.IKEMessage)
+			if err := m.Decode(b); err != nil {
+				sb.WriteString("E")
+			} else {
+				sb.WriteString("O")
+			}
+			if _, err := ike.DecodeDecrypt(b, nil, w.a, message.Role(k%2 == 0)); err != nil {
+				sb.WriteString("D")
+			}
+		}
+		// unsupported transforms through every registry
+		tr := &message.Transform{TransformType: uint8(1 + w.r.Intn(5)), TransformID: uint16(w.r.Intn(65536)), AttributePresent: w.r.Intn(2) == 0, AttributeFormat: 1, AttributeType: uint16(w.r.Intn(20)), AttributeValue: uint16(w.r.Intn(600))}
+		sb.WriteString(fmt.Sprintf(" %v%v%v%v%v", encr.DecodeTransform(tr) == nil, integ.DecodeTransform(tr) == nil, prf.DecodeTransform(tr) == nil, dh.DecodeTransform(tr) == nil, encr.DecodeTransformChildSA(tr) == nil))
+		if _, err := w.a.EncrInfo.NewCrypto(rbytes(w.r, w.r.Intn(40))); err != nil {
+			sb.WriteString("k")
+		}
+		return "ok " + sb.String()
+	}},
 	{"EAP", func(w *world) string {
 		e := genEAP(w.r)
 		b, err := e.Marshal()
